@@ -124,13 +124,8 @@ func (w *World) LoadPrelude(files []string) error {
 		sb.WriteString("; --- " + filepath.Base(f) + "\n")
 		sb.Write(b)
 		sb.WriteString("\n")
-		for _, m := range declRe.FindAllStringSubmatch(string(b), -1) {
-			d := &Decl{Name: m[1]}
-			for _, s := range sortRe.FindAllString(m[2], -1) {
-				d.Args = append(d.Args, parseSort(s))
-			}
-			d.Ret = parseSort(m[3])
-			w.SpecDecls[m[1]] = d
+		for _, d := range parseDecls(string(b)) {
+			w.SpecDecls[d.Name] = d
 		}
 	}
 	w.Prelude = sb.String()
@@ -411,4 +406,125 @@ func (e *Exec) ensureInit(pkg *ssa.Package) (res *initResult) {
 	res = &initResult{heap: fs.Heap, maps: fs.Maps, ids: ids, mutated: mutated}
 	e.inits[pkg] = res
 	return res
+}
+
+// parseDecls extracts the signatures of define-fun / declare-fun / define-fun-rec commands.
+func parseDecls(src string) []*Decl {
+	var out []*Decl
+	// strip comments
+	var sb strings.Builder
+	for _, l := range strings.Split(src, "\n") {
+		if i := strings.IndexByte(l, ';'); i >= 0 {
+			l = l[:i]
+		}
+		sb.WriteString(l)
+		sb.WriteByte(' ')
+	}
+	toks := tokenizeSexp(sb.String())
+	// walk top-level forms
+	i := 0
+	var parse func() interface{}
+	parse = func() interface{} {
+		if i >= len(toks) {
+			return nil
+		}
+		t := toks[i]
+		i++
+		if t != "(" {
+			return t
+		}
+		var l []interface{}
+		for i < len(toks) && toks[i] != ")" {
+			l = append(l, parse())
+		}
+		i++
+		return l
+	}
+	sortOf := func(x interface{}) (Sort, bool) {
+		switch v := x.(type) {
+		case string:
+			if v == "Bool" {
+				return BoolS, true
+			}
+			if v == "Int" {
+				return IntS, true
+			}
+		case []interface{}:
+			if len(v) == 3 && v[0] == "_" && v[1] == "BitVec" {
+				var n int
+				fmt.Sscanf(v[2].(string), "%d", &n)
+				return BV(n), true
+			}
+		}
+		return Sort{}, false
+	}
+	for i < len(toks) {
+		f, ok := parse().([]interface{})
+		if !ok || len(f) < 4 {
+			continue
+		}
+		head, _ := f[0].(string)
+		name, _ := f[1].(string)
+		args, _ := f[2].([]interface{})
+		d := &Decl{Name: name}
+		good := true
+		switch head {
+		case "define-fun", "define-fun-rec":
+			for _, a := range args {
+				pa, ok := a.([]interface{})
+				if !ok || len(pa) != 2 {
+					good = false
+					break
+				}
+				so, ok := sortOf(pa[1])
+				if !ok {
+					good = false
+					break
+				}
+				d.Args = append(d.Args, so)
+			}
+		case "declare-fun":
+			for _, a := range args {
+				so, ok := sortOf(a)
+				if !ok {
+					good = false
+					break
+				}
+				d.Args = append(d.Args, so)
+			}
+		default:
+			continue
+		}
+		ret, ok := sortOf(f[3])
+		if !good || !ok {
+			continue
+		}
+		d.Ret = ret
+		out = append(out, d)
+	}
+	return out
+}
+
+func tokenizeSexp(s string) []string {
+	var toks []string
+	cur := ""
+	flush := func() {
+		if cur != "" {
+			toks = append(toks, cur)
+			cur = ""
+		}
+	}
+	for _, r := range s {
+		switch r {
+		case '(', ')':
+			flush()
+			toks = append(toks, string(r))
+		case ' ', '\t', '\n', '\r':
+			flush()
+		default:
+			cur += string(r)
+		}
+	}
+	flush()
+	return toks
 }
